@@ -48,7 +48,7 @@ def run_proc(cmd, cwd, timeout, mem_gb, log_path, env=ENV):
 
 
 CHECK_RE = re.compile(
-    r"^Check (\d+): (\S+)\n\t - Status: (\w+)\n\t - Description: \"(.*)\"\n(?:\t - Location: (.*)\n)?",
+    r"^Check (\d+): (.+)\n\t - Status: (\w+)\n\t - Description: \"(.*)\"\n(?:\t - Location: (.*)\n)?",
     re.M)
 
 
@@ -170,6 +170,10 @@ def parse_trace_tape(text):
 # in the freshly generated goto binary on every run, so they follow /repo's source.
 # A bound that is too small fails its unwinding assertion => INCONCLUSIVE, never PASS.
 DEFAULT_UNWINDSET = {
+    "bcast": [
+        # at most 3 entries in the backlog: 3 pops + the one that finds it empty
+        (r"Broadcasts::<.*>::fill(_with_len_prefix)?::<", 5),
+    ],
     "incrate": [
         (r"bytes::BufMut>::put_slice", 3),
         (r"::choose_and_send::", 3),
